@@ -672,6 +672,43 @@ func (e *env) registryOps(st Step) (res Result) {
 				codec.Registry(b)
 			}
 		}
+		if r%8 == 6 {
+			// phase D - a Remove that drains the registry overlaps registrations of other names: a registration
+			// that reported success must still be there afterwards (nobody removed it)
+			codec.Clear()
+			last := &namedSvc{name + "_last"}
+			for rep := 0; rep < 60; rep++ {
+				codec.Registry(last)
+				others := make([]*namedSvc, st.Threads)
+				won := make([]bool, st.Threads)
+				start4 := make(chan struct{})
+				for t := 0; t < st.Threads; t++ {
+					others[t] = &namedSvc{fmt.Sprintf("%s_%d_%d", name, rep, t)}
+					wg.Add(1)
+					go func(t int) {
+						defer wg.Done()
+						<-start4
+						if t == 0 {
+							codec.Remove(last.name)
+						} else {
+							won[t] = codec.Registry(others[t])
+						}
+					}(t)
+				}
+				close(start4)
+				wg.Wait()
+				for t := 1; t < st.Threads; t++ {
+					if v, ok := codec.Get(others[t].name); won[t] && (!ok || v != any(others[t])) {
+						anomalies++
+					}
+					codec.Remove(others[t].name)
+				}
+			}
+			codec.Clear()
+			for _, b := range builtins {
+				codec.Registry(b)
+			}
+		}
 	}
 	res.Ret = map[string]any{"rounds": rounds, "anomalies": anomalies}
 	return
